@@ -1,5 +1,5 @@
 (* Case evaluator for the C07 shards. *)
-From GL Require Import VM.Opcode VM.Proto VM.WfProto VM.Skeleton.
+From GL Require Import VM.Opcode VM.Proto VM.WfProto VM.Skeleton VM.StrKey.
 From Coq Require Uint63.
 
 (* Code words are written in the shards as primitive-integer literals (parsed natively, much
@@ -86,7 +86,7 @@ Definition field_in_range (field v : Z) : bool :=
 (* the impl models (Opcode.v, the Go port's twin wf_proto, Skeleton.v) against what the code did *)
 Definition check_impl (c : case) : bool :=
   match c with
-  | CProto p gowf dg trans => Bool.eqb (wf_proto p) gowf && (digest_of p =? dg) && trans_ok p trans
+  | CProto p gowf dg trans => Bool.eqb (wfx_proto p) gowf && (digest_of p =? dg) && trans_ok p trans
   | CDecode w op a b c bx sbx =>
       (opGetOpCode w =? op) && (opGetArgA w =? a) && (opGetArgB w =? b) && (opGetArgC w =? c)
       && (opGetArgBx w =? bx) && (opGetArgSbx w =? sbx)
@@ -97,11 +97,12 @@ Definition check_impl (c : case) : bool :=
   | CProps rows consts => zll_eqb props_rows rows && zlist_eqb model_consts consts
   end.
 
-(* the property on the observed behaviour: the dumped prototype is well-formed; for the codec the
-   observed word decodes back to the in-range fields it was created from *)
+(* the property on the observed behaviour: the dumped prototype is well-formed (wf_proto) and its
+   register-form string keys are fed by the LOADK of a string constant (strreg_proto, StrKey.v);
+   for the codec the observed word decodes back to the in-range fields it was created from *)
 Definition check_spec (c : case) : bool :=
   match c with
-  | CProto p _ _ _ => wf_proto p
+  | CProto p _ _ _ => wfx_proto p
   | CDecode w op a b c bx sbx => true
   | CCreateABC op a b c w =>
       if field_in_range 0 op && field_in_range 1 a && field_in_range 2 b && field_in_range 3 c
